@@ -181,9 +181,9 @@ def peel (v : Val) (T : Ty) : Ty :=
   | .some _ | .none | .null => T
   | _ => T.stripOpt
 
-/-- The (value, type) pair a path leads to. -/
+/-- The (value, type) pair a path leads to (the type already looked through as in `peel`). -/
 def subAt : Path → Val → Ty → Option (Val × Ty)
-  | [], v, T => .some (v, T)
+  | [], v, T => .some (v, peel v T)
   | c :: rest, v, T =>
     match c, v, peel v T with
     | .optInner, .some x, .opt t => subAt rest x t
@@ -193,5 +193,30 @@ def subAt : Path → Val → Ty → Option (Val × Ty)
       | .some x, .some t => subAt rest x t
       | _, _ => .none
     | _, _, _ => .none
+
+/-- Does the kind of the value fit the (peeled) type at all, children aside? -/
+def rootFits (allow : Bool) : Ty → Val → Bool
+  | .any, _ => true
+  | .null, .null => true
+  | .str, .str _ => true
+  | .range, .range .. => true
+  | .bool, v => (match v with | .bool _ => true | v => allow && isScalarNum v)
+  | .int, v => (match v with | .int _ => true | v => allow && isScalarNum v)
+  | .float, v => (match v with | .flt _ => true | v => allow && isScalarNum v)
+  | .anyobj, .anyobj _ => true
+  | .anyobj, .obj _ => true
+  | .list _, .list _ => true
+  | .obj _, .obj _ => true
+  | .opt _, .none => true
+  | .opt _, .null => true
+  | .opt _, .some _ => true
+  | _, _ => false
+
+/-- What an error of class `c` reported at a (value, type) pair claims about that pair. -/
+def offends (allow : Bool) : ErrClass → Val → Ty → Bool
+  | .incompatible, v, T => !rootFits allow T v
+  | .unexpectedField k, .obj fs, .obj tfs => fs.hasKey k && !tfs.hasKey k
+  | .missingField k, .obj fs, .obj tfs => tfs.hasKey k && !fs.hasKey k
+  | _, _, _ => false
 
 end Hms.Value
